@@ -3,8 +3,15 @@ package main
 import (
 	"bufio"
 	"bytes"
+	"crypto/ecdsa"
+	"crypto/elliptic"
+	"crypto/rand"
+	"crypto/tls"
+	"crypto/x509"
+	"crypto/x509/pkix"
 	"fmt"
 	"io"
+	"math/big"
 	"net"
 	"strings"
 	"sync"
@@ -27,6 +34,9 @@ type stubSession struct {
 	mu     sync.Mutex
 	calls  []Call
 	closes int
+	conn   *imapserver.Conn // for state snapshots (verif hook)
+	// recordPoll makes Poll a recorded call (args: allow)
+	recordPoll bool
 	// fail(name) reports whether the backend call should fail with NO.
 	fail func(name string) bool
 	// hooks
@@ -45,14 +55,46 @@ type stubSession struct {
 }
 
 func (s *stubSession) rec(name string, raw interface{}, args map[string]interface{}) error {
+	st := ""
+	if s.conn != nil {
+		st = connStateName(s.conn.VerifState())
+	}
 	s.mu.Lock()
-	s.calls = append(s.calls, Call{Name: name, Args: args, raw: raw})
+	s.calls = append(s.calls, Call{Name: name, State: st, Args: args, raw: raw})
 	s.mu.Unlock()
 	if s.fail != nil && s.fail(name) {
 		return &imap.Error{Type: imap.StatusResponseTypeNo, Text: "stub refuses " + name}
 	}
 	return nil
 }
+
+func connStateName(st imap.ConnState) string {
+	switch st {
+	case imap.ConnStateNotAuthenticated:
+		return "notauth"
+	case imap.ConnStateAuthenticated:
+		return "auth"
+	case imap.ConnStateSelected:
+		return "selected"
+	case imap.ConnStateLogout:
+		return "logout"
+	}
+	return "none"
+}
+
+// TakeCalls returns and clears the recorded calls.
+func (s *stubSession) TakeCalls() []Call {
+	s.mu.Lock()
+	defer s.mu.Unlock()
+	c := s.calls
+	s.calls = nil
+	return c
+}
+
+// stubUnauth additionally implements SessionUnauthenticate.
+type stubUnauth struct{ *stubSession }
+
+func (s stubUnauth) Unauthenticate() error { return s.rec("Unauthenticate", nil, nil) }
 
 func (s *stubSession) Calls() []Call {
 	s.mu.Lock()
@@ -109,7 +151,8 @@ func (s *stubSession) Status(mailbox string, options *imap.StatusOptions) (*imap
 	if s.onStatus != nil {
 		return s.onStatus(mailbox, options)
 	}
-	return &imap.StatusData{Mailbox: mailbox}, nil
+	n, sz := uint32(3), int64(10)
+	return &imap.StatusData{Mailbox: mailbox, NumMessages: &n, NumUnseen: &n, NumDeleted: &n, Size: &sz, UIDNext: 4, UIDValidity: 1}, nil
 }
 func (s *stubSession) Append(mailbox string, r imap.LiteralReader, options *imap.AppendOptions) (*imap.AppendData, error) {
 	if s.onAppend != nil {
@@ -125,6 +168,15 @@ func (s *stubSession) Append(mailbox string, r imap.LiteralReader, options *imap
 	return &imap.AppendData{UID: 10, UIDValidity: 1}, nil
 }
 func (s *stubSession) Poll(w *imapserver.UpdateWriter, allowExpunge bool) error {
+	if s.recordPoll {
+		st := ""
+		if s.conn != nil {
+			st = connStateName(s.conn.VerifState())
+		}
+		s.mu.Lock()
+		s.calls = append(s.calls, Call{Name: "Poll", State: st, Args: map[string]interface{}{"allow": allowExpunge}})
+		s.mu.Unlock()
+	}
 	if s.onPoll != nil {
 		return s.onPoll(w, allowExpunge)
 	}
@@ -225,18 +277,22 @@ func (l *logBuf) String() string {
 }
 
 type testServer struct {
-	srv        *imapserver.Server
-	ln         net.Listener
-	log        *logBuf
-	mu         sync.Mutex
-	sess       []*stubSession
-	newSession func(c *imapserver.Conn) (imapserver.Session, *imapserver.GreetingData, error)
+	tlsListener bool
+	srv         *imapserver.Server
+	ln          net.Listener
+	log         *logBuf
+	mu          sync.Mutex
+	sess        []*stubSession
+	newSession  func(c *imapserver.Conn) (imapserver.Session, *imapserver.GreetingData, error)
 }
 
 type srvOpts struct {
 	Caps         imap.CapSet
 	InsecureAuth bool
 	PreAuth      bool
+	TLSConfig    *tls.Config // Options.TLSConfig (STARTTLS)
+	TLSListener  bool        // serve implicit TLS
+	Unauth       bool        // session implements SessionUnauthenticate
 	Configure    func(s *stubSession)
 	NewSession   func(c *imapserver.Conn) (imapserver.Session, *imapserver.GreetingData, error)
 }
@@ -246,13 +302,16 @@ func startServer(o srvOpts) *testServer {
 	newSession := o.NewSession
 	if newSession == nil {
 		newSession = func(c *imapserver.Conn) (imapserver.Session, *imapserver.GreetingData, error) {
-			s := &stubSession{}
+			s := &stubSession{conn: c}
 			if o.Configure != nil {
 				o.Configure(s)
 			}
 			ts.mu.Lock()
 			ts.sess = append(ts.sess, s)
 			ts.mu.Unlock()
+			if o.Unauth {
+				return stubUnauth{s}, &imapserver.GreetingData{PreAuth: o.PreAuth}, nil
+			}
 			return s, &imapserver.GreetingData{PreAuth: o.PreAuth}, nil
 		}
 	}
@@ -261,10 +320,15 @@ func startServer(o srvOpts) *testServer {
 		Caps:         o.Caps,
 		Logger:       ts.log,
 		InsecureAuth: o.InsecureAuth,
+		TLSConfig:    o.TLSConfig,
 	})
 	ln, err := net.Listen("tcp", "127.0.0.1:0")
 	if err != nil {
 		panic(err)
+	}
+	ts.tlsListener = o.TLSListener
+	if o.TLSListener {
+		ln = tls.NewListener(ln, o.TLSConfig)
 	}
 	ts.ln = ln
 	go ts.srv.Serve(ln)
@@ -293,6 +357,13 @@ func (ts *testServer) dial() *rawConn {
 	c, err := net.Dial("tcp", ts.ln.Addr().String())
 	if err != nil {
 		panic(err)
+	}
+	if ts.tlsListener {
+		tc := tls.Client(c, &tls.Config{InsecureSkipVerify: true})
+		if err := tc.Handshake(); err != nil {
+			panic(err)
+		}
+		c = tc
 	}
 	return &rawConn{c: c, br: bufio.NewReader(c)}
 }
@@ -364,3 +435,62 @@ func respClass(tagged string) string {
 	}
 	return "?"
 }
+
+// upgradeTLS performs the client side of STARTTLS on a raw connection.
+func (rc *rawConn) upgradeTLS() error {
+	tc := tls.Client(rc.c, &tls.Config{InsecureSkipVerify: true})
+	rc.c.SetDeadline(time.Now().Add(5 * time.Second))
+	if err := tc.Handshake(); err != nil {
+		return err
+	}
+	rc.c = tc
+	rc.br = bufio.NewReader(tc)
+	return nil
+}
+
+// interactive sends a command line and answers continuation requests with the given
+// follow-up chunks (each written verbatim); returns untagged lines, continuation lines and
+// the tagged completion.
+func (rc *rawConn) interactive(line string, followups []string) (untagged, conts []string, tagged string, err error) {
+	rc.tag++
+	tag := fmt.Sprintf("T%d", rc.tag)
+	if _, err = io.WriteString(rc.c, tag+" "+line+"\r\n"); err != nil {
+		return
+	}
+	for {
+		var l string
+		l, err = rc.readLine(5 * time.Second)
+		if err != nil {
+			return
+		}
+		switch {
+		case strings.HasPrefix(l, tag+" "):
+			return untagged, conts, l, nil
+		case strings.HasPrefix(l, "+"):
+			conts = append(conts, l)
+			if len(followups) > 0 {
+				if _, err = io.WriteString(rc.c, followups[0]); err != nil {
+					return
+				}
+				followups = followups[1:]
+			}
+		default:
+			untagged = append(untagged, l)
+		}
+	}
+}
+
+var testTLSConfig = func() *tls.Config {
+	key, err := ecdsa.GenerateKey(elliptic.P256(), rand.Reader)
+	if err != nil {
+		panic(err)
+	}
+	tmpl := &x509.Certificate{SerialNumber: big.NewInt(1), Subject: pkix.Name{CommonName: "localhost"},
+		NotBefore: time.Now().Add(-time.Hour), NotAfter: time.Now().Add(24 * time.Hour),
+		KeyUsage: x509.KeyUsageDigitalSignature, ExtKeyUsage: []x509.ExtKeyUsage{x509.ExtKeyUsageServerAuth}, DNSNames: []string{"localhost"}}
+	der, err := x509.CreateCertificate(rand.Reader, tmpl, tmpl, &key.PublicKey, key)
+	if err != nil {
+		panic(err)
+	}
+	return &tls.Config{Certificates: []tls.Certificate{{Certificate: [][]byte{der}, PrivateKey: key}}}
+}()
